@@ -1,10 +1,21 @@
-import JunoModel.C15.Proofs
+import JunoModel.C15.ProofsProps
 /-!
-C15 — property theorems (statements only; helper lemmas are in `Proofs.lean`).
+C15 — property theorems (statements only; helper lemmas are in `Proofs*.lean`).
 Every theorem in this module is an obligation listed in evidence/C15.json with its axioms.
+
+Vocabulary (all defined in `Model.lean`):
+* `specImpl` — the contract (ordered map; batch = op log applied at `Write`; iterator over
+  `[prefix, UpperBound(prefix))` with positions unpositioned / before / at i / after);
+* `memImpl cfg` — transcription of db/memory; `cfg : Cfg` says which of the four iterator repairs
+  are present in the tree (`Cfg.asFound` = the pinned commit, all flags false);
+* `run M w ops` — the outputs of an op sequence, `exec M w ops` — the final state;
+* `inContract cfg w ops` — the explicit, decidable contract boundary (`stepOK`, per step, evaluated
+  on the contract's own state).
 -/
 namespace Juno.C15.Props
 open Juno.C15
+
+/-! ## dbutils.UpperBound -/
 
 /-- `dbutils.UpperBound` is exact: a key has prefix `p` iff it lies in `[p, upperBound p)`,
 where a missing bound (`nil`: empty or all-`0xff` prefix) means "unbounded above". This is the
@@ -18,9 +29,264 @@ theorem upperBound_spec (p k : Key) :
 theorem upperBound_nil_iff (p : Key) : upperBound p = none ↔ ∀ b ∈ p, b = 255 :=
   upperBound_none_iff p
 
--- non-vacuity: concrete instances of both sides
+/-! ## Refinement: db/memory gives the outputs of the contract -/
+
+/-
+FULL-STRENGTH STATEMENT (does NOT hold for the code as found; see the `memory_defect_*` witnesses):
+
+  theorem mem_refines_spec (ops : List Op) (h : documented ops) :
+      run (memImpl Cfg.asFound) World.init ops = run specImpl World.init ops
+
+where `documented` only rules out what db/iterator.go, db/batch.go and Pebble rule out (`Value()`
+of an invalid iterator, handles used after `Close` of the store, closing the store / a batch / a
+snapshot with live iterators on it, `Size()` after `DeleteRange`).
+What is proved instead, for EVERY op sequence and every variant `cfg` of db/memory: equality of all
+outputs inside the boundary `inContract cfg`, which in addition excludes
+  (1) `NewIterator(p, true)`  with `UpperBound(p) = nil`      unless `cfg.nilUbFix`,
+  (2) `NewIterator(p, false)` with `p ≠ ""`                   unless `cfg.lowerBoundFix`,
+  (3) `Prev` on an iterator that is before the first key      unless `cfg.prevFix`,
+  (4) `Next` on an iterator that is past the last key         unless `cfg.nextClamp`,
+  (5) changing the store (or closing it) while another live batch holds a `DeleteRange` — for
+      every `cfg`: db/memory materialises the range when `DeleteRange` is called.
+With `Cfg.repaired` (proposed-fixes/C15-memory-iterator.diff applied) only (5) is missing.
+-/
+theorem mem_refines_spec_partial (cfg : Cfg) (ops : List Op)
+    (h : inContract cfg World.init ops = true) :
+    run (memImpl cfg) World.init ops = run specImpl World.init ops :=
+  (run_sim cfg ops _ _ R_init h).1
+
+/-- the same from any pair of related states (e.g. in the middle of a sequence) -/
+theorem mem_refines_spec_from_partial (cfg : Cfg) (ops : List Op)
+    (wm : World MBatch MIter) (ws : World SBatch SIter) (hR : R wm ws)
+    (h : inContract cfg ws ops = true) :
+    run (memImpl cfg) wm ops = run specImpl ws ops :=
+  (run_sim cfg ops wm ws hR h).1
+
+/-! ### the five places where db/memory as found leaves the contract: concrete witnesses -/
+
+/-- (1) `put ffff 06; scan db ffff withUpperBound` — memory `[]`, contract `[ffff=06]` -/
+theorem memory_defect_nil_upper_bound :
+    run (memImpl Cfg.asFound) World.init [.put [255, 255] [6], .scan .db [255, 255] true] ≠
+    run specImpl World.init [.put [255, 255] [6], .scan .db [255, 255] true] := by decide
+
+/-- (2) `put 02 04; scan db 01 noUpperBound` — memory `[]`, contract `[02=04]` -/
+theorem memory_defect_prefix_filter :
+    run (memImpl Cfg.asFound) World.init [.put [2] [4], .scan .db [1] false] ≠
+    run specImpl World.init [.put [2] [4], .scan .db [1] false] := by decide
+
+/-- (3) `First, Prev, Prev` — memory is back on the first key, contract stays invalid -/
+theorem memory_defect_prev_before_first :
+    run (memImpl Cfg.asFound) World.init [.put [0] [1], .iter .db [] false, .first 0, .prev 0, .prev 0] ≠
+    run specImpl World.init [.put [0] [1], .iter .db [] false, .first 0, .prev 0, .prev 0] := by decide
+
+/-- (4) `Seek(past end), Next, Prev` — memory returns true on an invalid position -/
+theorem memory_defect_next_past_end :
+    run (memImpl Cfg.asFound) World.init [.put [0] [1], .iter .db [] false, .seek 0 [9], .next 0, .prev 0] ≠
+    run specImpl World.init [.put [0] [1], .iter .db [] false, .seek 0 [9], .next 0, .prev 0] := by decide
+
+/-- (5) `b.DeleteRange("", ff); db.Put(01); b.Write()` — `01` survives on memory (every `cfg`) -/
+theorem memory_defect_batch_deleterange :
+    run (memImpl Cfg.repaired) World.init
+      [.newBatch false, .bdelRange 0 [] [255], .put [1] [9], .bwrite 0, .scan .db [] false] ≠
+    run specImpl World.init
+      [.newBatch false, .bdelRange 0 [] [255], .put [1] [9], .bwrite 0, .scan .db [] false] := by decide
+
+/-- with the iterator repairs, the witnesses (1)–(4) are inside the boundary (so
+`mem_refines_spec_partial Cfg.repaired` covers them) … -/
+theorem repaired_covers_iterator_witnesses :
+    inContract Cfg.repaired World.init [.put [255, 255] [6], .scan .db [255, 255] true] = true ∧
+    inContract Cfg.repaired World.init [.put [2] [4], .scan .db [1] false] = true ∧
+    inContract Cfg.repaired World.init [.put [0] [1], .iter .db [] false, .first 0, .prev 0, .prev 0] = true ∧
+    inContract Cfg.repaired World.init [.put [0] [1], .iter .db [] false, .seek 0 [9], .next 0, .prev 0] = true := by
+  decide
+
+/-- … and as found they are outside of it, as is (5) for every variant. -/
+theorem asFound_excludes_witnesses :
+    inContract Cfg.asFound World.init [.put [255, 255] [6], .scan .db [255, 255] true] = false ∧
+    inContract Cfg.asFound World.init [.put [2] [4], .scan .db [1] false] = false ∧
+    inContract Cfg.asFound World.init [.put [0] [1], .iter .db [] false, .first 0, .prev 0, .prev 0] = false ∧
+    inContract Cfg.asFound World.init [.put [0] [1], .iter .db [] false, .seek 0 [9], .next 0, .prev 0] = false ∧
+    inContract Cfg.repaired World.init
+      [.newBatch false, .bdelRange 0 [] [255], .put [1] [9], .bwrite 0, .scan .db [] false] = false := by
+  decide
+
+/-! ## Batches -/
+
+/-- All-or-nothing, part 1: no operation other than a direct write, `Write` of a batch, a
+successful `Update`/`Write` helper or `Close` changes the store — in particular nothing a batch
+records is visible in the store before `Write` (any implementation of the interface, any sequence). -/
+theorem batch_atomic_nothing_before_write {B I : Type} (M : Impl B I) (w : World B I) (ops : List Op)
+    (h : ops.all (fun o => !o.commits) = true) : (exec M w ops).db = w.db :=
+  exec_db_of_no_commit M ops w h
+
+/-- All-or-nothing, part 2 (db/memory): `Write` replaces the store content, in one step, by the
+content with every recorded write applied in order, and closes the batch. -/
+theorem batch_atomic_write_applies_all (cfg : Cfg) (w : World MBatch MIter) (b : Nat) (x : MBatch) (i : Bool)
+    (d : KV) (hb : w.batches b = some (x, i)) (hd : w.db = some d) :
+    (step (memImpl cfg) w (.bwrite b)).1.db = some (x.writes.foldl MWrite.apply d) ∧
+    (step (memImpl cfg) w (.bwrite b)).1.batches b = none := by
+  simp [step, hb, hd, memImpl, MBatch.flush]
+
+/-- … and that content is the contract's: for a batch built by any list of `Put`/`Delete`/
+`DeleteRange` calls over an unchanged store `d`, flushing the db/memory batch gives exactly the op
+log applied to `d` in order. -/
+theorem batch_atomic (cfg : Cfg) (d : KV) (hd : Sorted d) (log : List LogOp) :
+    (memBuild cfg d log (memImpl cfg).bempty).flush d = applyLog d log := by
+  obtain ⟨sz, h⟩ := memBuild_RB cfg d hd log _ _ (RB_empty (cfg := cfg) d)
+  simpa [specImpl] using h.2.1
+
+/-- Later operations win (contract log): the last operation of a batch decides the key it touches
+and leaves every other key as the earlier operations left it. -/
+theorem later_wins (d : KV) (log : List LogOp) (k : Key) (v : Val) (s e k' : Key) :
+    (applyLog d (log ++ [.put k v])).get k = some v ∧
+    (applyLog d (log ++ [.del k])).get k = none ∧
+    (inRange s e k = true → (applyLog d (log ++ [.delRange s e])).get k = none) ∧
+    (k ≠ k' → (applyLog d (log ++ [.put k v])).get k' = (applyLog d log).get k') ∧
+    (k ≠ k' → (applyLog d (log ++ [.del k])).get k' = (applyLog d log).get k') ∧
+    (inRange s e k' = false → (applyLog d (log ++ [.delRange s e])).get k' = (applyLog d log).get k') := by
+  simp only [applyLog_append, LogOp.apply, SMap.get_put, SMap.get_del, SMap.get_delRange]
+  refine ⟨by simp, by simp, ?_, ?_, ?_, ?_⟩
+  · intro h; simp [h]
+  · intro h; simp [h]
+  · intro h; simp [h]
+  · intro h; simp [h]
+
+/-- Later operations win (db/memory `writes` list): after `Write`, a key holds what the LAST entry
+of the batch for that key says (value, or absent for a delete); untouched keys keep the store's. -/
+theorem later_wins_memory (b : MBatch) (d : KV) (k : Key) :
+    (b.flush d).get k =
+      match lastWrite b.writes k with
+      | some w => if w.delete then none else some w.value
+      | none => d.get k := by
+  unfold MBatch.flush
+  rw [foldl_apply_get]
+  cases lastWrite b.writes k <;> rfl
+
+/-- Indexed batches read their own writes over the store: for a db/memory batch built by any list
+of calls over store content `d`, `batch.Get(k)` (write map first, then the store) returns what the
+contract says — the lookup of `k` in `d` with the batch's op log applied. -/
+theorem indexed_reads_own_writes (cfg : Cfg) (d : KV) (hd : Sorted d) (log : List LogOp) (k : Key) :
+    (memBuild cfg d log (memImpl cfg).bempty).get d k = (applyLog d log).get k := by
+  obtain ⟨sz, h⟩ := memBuild_RB cfg d hd log _ _ (RB_empty (cfg := cfg) d)
+  simpa [specImpl] using RB_get h k
+
+/-! ## Snapshots, helpers -/
+
+/-- A snapshot is unaffected by anything that happens later: whatever sequence of operations runs
+(on any implementation), as long as that snapshot is not closed, reads from it answer from the
+content captured at creation. -/
+theorem snapshot_isolated {B I : Type} (M : Impl B I) (w : World B I) (s : Nat) (d : KV) (ops : List Op)
+    (hs : s < w.ns) (hd : w.snaps s = some d) (hne : ∀ op ∈ ops, op ≠ .sclose s) (k : Key) (fail : Bool)
+    (p : Key) (u : Bool) :
+    (step M (exec M w ops) (.get (.snap s) k fail)).2 = .r (readGet (d.get k) fail) ∧
+    (step M (exec M w ops) (.has (.snap s) k)).2 = .r (.bool (d.get k).isSome) ∧
+    (step M (exec M w ops) (.scan (.snap s) p u)).2 = .r (.list (scan M d p u)) := by
+  have := exec_snap_stable M ops w s hs hne
+  simp [step, World.read, this, hd]
+
+/-- the snapshot taken by `NewSnapshot` holds the store content of that moment -/
+theorem snapshot_captures {B I : Type} (M : Impl B I) (w : World B I) (d : KV) (hd : w.db = some d) :
+    (step M w .snap).1.snaps w.ns = some d ∧ w.ns < (step M w .snap).1.ns := by
+  simp [step, hd]
+
+/-- Copy-on-iterate: an iterator is unaffected by anything that happens later — whatever sequence
+of operations runs (on any implementation) that does not position or close that iterator, its keys,
+values and position stay as they were (in particular after writes to the store it was created from). -/
+theorem iterator_isolated {B I : Type} (M : Impl B I) (w : World B I) (i : Nat) (ops : List Op)
+    (hi : i < w.ni) (hne : ops.all (fun o => !o.onIter i) = true) :
+    (exec M w ops).iters i = w.iters i :=
+  exec_iter_stable M ops w i hi hne
+
+/-- `Update` / `Write` helper whose callback fails: nothing at all is applied — the whole state
+is unchanged, whatever the callback did with its batch. -/
+theorem failed_callback_no_effect {B I : Type} (M : Impl B I) (w : World B I) (idx : Bool) (ops : List BOp) :
+    (step M w (.update idx true ops)).1 = w := by
+  simp only [step]
+  cases w.db <;> rfl
+
+/-- … and when it succeeds, exactly the batch built by the callback is applied (db/memory = contract). -/
+theorem successful_callback_applies_batch (cfg : Cfg) (w : World MBatch MIter) (d : KV) (hd : w.db = some d)
+    (idx : Bool) (ops : List BOp) :
+    (step (memImpl cfg) w (.update idx false ops)).1.db =
+      some ((runInner (memImpl cfg) d idx ops (memImpl cfg).bempty).1.flush d) := by
+  simp [step, hd, memImpl]
+
+/-! ## Iteration -/
+
+/-- Iterating (`First`, then `Next` until invalid) yields exactly the entries of the store whose key
+lies in `[p, UpperBound(p))` (no upper bound if not requested or nil), in strictly increasing key
+order — for the contract on all arguments, for db/memory on the arguments inside the boundary. -/
+theorem iteration_exact (cfg : Cfg) (c : KV) (hc : Sorted c) (p : Key) (u : Bool) :
+    let out := scan specImpl c p u
+    out.Pairwise (fun a b => lexLt a.1 b.1 = true) ∧
+    (∀ k v, (k, v) ∈ out ↔
+      (c.get k = some v ∧ lexLe p k = true ∧
+        (u = true → ∀ w, upperBound p = some w → lexLt k w = true))) ∧
+    (iterArgsOK cfg p u = true → scan (memImpl cfg) c p u = out) := by
+  refine ⟨?_, ?_, fun hok => scan_sim cfg c p u hok⟩
+  · rw [spec_scan]; exact hc.filter _
+  · intro k v
+    rw [spec_scan, List.mem_filter, ← hc.get_eq_some]
+    simp only [specBound, Bool.and_eq_true]
+    cases u
+    · simp
+    · cases hub : upperBound p <;> simp [hub]
+
+/-- stores reachable by the contract are sorted (so `iteration_exact` applies to them) -/
+theorem reachable_store_sorted (ops : List Op) (d : KV)
+    (h : (exec specImpl World.init ops).db = some d) : Sorted d :=
+  spec_exec_sorted ops World.init (by intro d e; cases e; exact Sorted.nil) d h
+
+/-- `Seek(t)` lands on the least key `>= t` of the iterator's range, or makes the iterator invalid
+when every key is `< t` (db/memory iterator; the contract iterator has the same index). -/
+theorem seek_least (it : MIter) (hs : Sorted it.keys) (t : Key) :
+    match (it.seek t).1.kv with
+    | some (k, _) => lexLe t k = true ∧ ∀ x ∈ it.keys, lexLe t x.1 = true → lexLe k x.1 = true
+    | none => ∀ x ∈ it.keys, lexLt x.1 t = true := by
+  have haux := seek_least_aux it.keys hs t
+  have hle := seekIdx_le t it.keys
+  by_cases h : seekIdx t it.keys < it.keys.length
+  · have hkv : (it.seek t).1.kv = some (it.keys[seekIdx t it.keys]) := by
+      have h2 : ((seekIdx t it.keys : Int) < (it.keys.length : Int)) := by omega
+      simp [MIter.seek, MIter.kv, MIter.valid, h2, List.getElem?_eq_getElem h]
+    rw [hkv]
+    exact haux.1 h
+  · have hkv : (it.seek t).1.kv = none := by
+      have h2 : ¬ ((seekIdx t it.keys : Int) < (it.keys.length : Int)) := by omega
+      simp [MIter.seek, MIter.kv, MIter.valid, h2]
+    rw [hkv]
+    exact haux.2 h
+
+/-- the contract iterator seeks to the same index -/
+theorem seek_same_index (mi : MIter) (si : SIter) (h : RI mi si) (t : Key) :
+    RI (mi.seek t).1 (si.seek t) ∧ (mi.seek t).1.kv = (si.seek t).cur :=
+  ⟨(seek_sim h t).1, RI_cur (seek_sim h t).1⟩
+
+/-! ## Non-vacuity -/
+
 example : upperBound [1, 255, 255] = some [2] := by decide
 example : upperBound [255, 255] = none := by decide
 example : hasPrefix [1, 255, 7] [1, 255] = true ∧ lexLt [1, 255, 7] [2] = true := by decide
+
+/-- a sequence inside the as-found boundary that uses every kind of handle and an `0xff`-terminated
+prefix, and on which the outputs are not trivial -/
+def sampleOps : List Op :=
+  [.put [1, 255] [7], .put [1, 255, 0] [], .put [2] [8], .put [] [9],
+   .newBatch true, .bput 0 [1] [1], .bdelRange 0 [2] [3], .get (.batch 0) [2] false, .snap,
+   .bwrite 0, .iter .db [1, 255] true, .first 0, .next 0, .next 0, .prev 0, .seek 0 [1, 255, 0],
+   .scan (.snap 0) [] false, .scan .db [1] true, .update true true [.put [5] [5], .get [5] false],
+   .update false false [.del []], .iclose 0, .sclose 0, .close, .get .db [1] false]
+
+example : inContract Cfg.asFound World.init sampleOps = true := by decide
+example : run specImpl World.init sampleOps =
+    [.r .ok, .r .ok, .r .ok, .r .ok, .handle 0, .r .ok, .r .ok, .r .notfound, .handle 0, .r .ok, .handle 0,
+     .pos true (some ([1, 255], [7])), .pos true (some ([1, 255, 0], [])), .pos false none,
+     .pos true (some ([1, 255, 0], [])), .pos true (some ([1, 255, 0], [])),
+     .r (.list [([], [9]), ([1, 255], [7]), ([1, 255, 0], []), ([2], [8])]),
+     .r (.list [([1], [1]), ([1, 255], [7]), ([1, 255, 0], [])]),
+     .upd [.ok, .val [5]] .errCb, .upd [.ok] .ok, .r .ok, .r .ok, .r .ok, .r .errClosed] := by decide
+example : Sorted ([([], [9]), ([1, 255], [7]), ([2], [8])] : KV) := by
+  simp [Sorted, lexLt]
+example : iterArgsOK Cfg.asFound [1, 255] true = true ∧ iterArgsOK Cfg.repaired [255] true = true := by decide
 
 end Juno.C15.Props
